@@ -381,3 +381,31 @@ func H_ParsePath() {
 	}
 	vp.Assert(e4 == nil && starts == 1 && ends == 1 && moves == 1 && arcs == 4, "circles without path data: one path, started once, ended once, two arcs per circle")
 }
+
+var _ = vp.Reg("Retransform", H_Retransform)
+
+// H_Retransform (bit exact, relational): what SetPathData emits depends on
+// the transform configured last and on nothing a Generator did before: a
+// Generator that already converted a path under another transform emits, after
+// SetTransform, exactly what a fresh Generator with that transform emits.
+func H_Retransform() {
+	paths := [...]string{"M1 2l3 4h5v6z", "M1 2a3 4 0 0 1 5 6z", "M8 7c1 2 3 4 5 6s1 2 3 4q1 2 3 4t5 6z", "M1 2L3 4H5V6A3 4 0 1 0 5 6z"}
+	p := paths[vp.Choice("path", len(paths))]
+	a := generate.Concat(generate.Scale(vp.F32("asx"), vp.F32("asy")), generate.Translate(vp.F32("atx"), vp.F32("aty")))
+	b := generate.Concat(generate.Scale(vp.F32("bsx"), vp.F32("bsy")), generate.Translate(vp.F32("btx"), vp.F32("bty")))
+	var used, fresh rec.Dest
+	g := generate.Generator{Destination: &used}
+	if vp.Choice("first", 2) == 1 {
+		g.SetTransform(a)
+	}
+	g.SetPathData(paths[0], 1)
+	g.SetTransform(b)
+	used.Log = nil
+	e1 := g.SetPathData(p, 2)
+	h := generate.Generator{Destination: &fresh}
+	h.SetTransform(b)
+	e2 := h.SetPathData(p, 2)
+	vp.Reach("converted")
+	vp.Assert(vp.And(e1 == nil, e2 == nil), "well-formed path data is accepted")
+	vp.Assert(rec.SameLog(used.Log, fresh.Log), "a reused Generator emits what a fresh one with the same transform emits")
+}
